@@ -26,9 +26,10 @@ RULE = ("correspondence: (1) toy sweep over curves y^2=x^3+ax+b, disc != 0, p in
 ASSUMPTIONS = ["p is an odd prime and the discriminant is non-zero in the search domain (the correspondence also runs composite, "
                "negative and tiny p: there model and code must merely agree)",
                "p = 0 is outside the model's domain and is never sent",
-               "search domain: stored coordinates reduced to [0,p), Z != 0 mod p, operands on the curve (what the library "
-               "constructors are given and what its operations return); kernel-level calls additionally with -Y2 and x+p as "
-               "the library's own loops produce them",
+               "search domain: stored coordinates reduced to [0,p); operands are points of the curve in any scaling, or "
+               "identity-valued PointJacobi objects (Z = 0 with any X, Y; Y = 0 with X/Z^2 not a root of x^3+ax+b), or INFINITY, "
+               "or legacy Points; kernel-level calls additionally with -Y2 and x+p as the library's own loops produce them; what "
+               "the code does with unreduced constructor arguments at object level is covered by the correspondence only",
                "open known finding K1: on curves with a point of order 2 a case where an operand, intermediate or result has "
                "y = 0 is reported as KNOWN-FINDING, not as a violation"]
 
@@ -443,7 +444,7 @@ def check_case(case):
                               "observed": {"triple": [int(v) for v in t]}, "expected": [want[0], want[1], 1], "pts": []})
         else:
             specs = [K.parse_tok(t) for t in args]
-            vals = [K.o_val(s, p, case["curve"][2]) for s in specs]
+            vals = [K.o_val(s, p, case["curve"][2], case["curve"][1]) for s in specs]
             mk = lambda i: specs[i].make(c)  # noqa  (a FRESH object every time: scale() mutates)
             pts = list(vals)
             if kind == "add":
@@ -604,6 +605,14 @@ def search_corpus(S):
     S.case(mkcase(cur, "chain", [tk(J(gx, gy, 1)), tk(J(gx, p - gy, 1))], "NIST256p"), "corpus.F12")
     S.case(mkcase((11, 1, 6), "neg", ["inf"]), "corpus.F12")
     S.case(mkcase((11, 1, 6), "chain", [tk(J(2, 7, 1)), tk(J(2, 4, 1))]), "corpus.F12")
+    # F13 (fixed): PointJacobi(c,0,0,0) == P was True for every P; identity-valued objects with different X compared unequal
+    S.case(mkcase(cur, "eq", [tk(J(0, 0, 0)), tk(J(gx, gy, 1))], "NIST256p"), "corpus.F13")
+    S.case(mkcase(cur, "eq", [tk(J(gx, gy, 1)), tk(J(0, 0, 0))], "NIST256p"), "corpus.F13")
+    S.case(mkcase(cur, "eq", [tk(J(0, 0, 1)), tk(J(gx, gy, 0))], "NIST256p"), "corpus.F13")
+    S.case(mkcase((11, 1, 6), "eq", [tk(J(0, 0, 0)), tk(J(2, 4, 1))]), "corpus.F13")
+    S.case(mkcase((11, 1, 6), "eq", [tk(J(0, 0, 1)), tk(J(5, 0, 1))]), "corpus.F13")
+    S.case(mkcase((11, 1, 6), "eq", [tk(J(0, 0, 1)), tk(J(3, 0, 2))]), "corpus.F13")
+    S.case(mkcase((11, 1, 6), "eq3", [tk(J(0, 0, 1)), tk(J(5, 0, 1)), "inf"]), "corpus.F13")
     S.case(mkcase((11, 0, 1), "add", [tk(J(0, 1, 1)), tk(J(2, 3, 1))]), "corpus.K1")
     S.case(mkcase((11, 0, 1), "add", [tk(A(0, 1)), tk(A(2, 3))]), "corpus.K1.legacy")
 
@@ -653,6 +662,29 @@ def search_toy_curve(ctx, S, p, a, b):
             trip = rng.sample(reps, 2) + [rng.choice(other)]
             rng.shuffle(trip)
             S.case(mkcase(cur, "eq3", trip), pre + "eq3.mixed")
+    # identity-valued PointJacobi objects (F13): every way the identity can be held must behave as the identity
+    nonroot = [x for x in range(p) if (x ** 3 + a * x + b) % p]
+    ids = [J(1, 1, 0), J(0, 0, 0), J(rng.randrange(p), rng.randrange(1, p), 0)]
+    for x0 in rng.sample(nonroot, min(2, len(nonroot))):
+        ids += [J(x0, 0, 1), J(x0 * 4 % p, 0, 2)]
+    ids = [tk(i) for i in ids]
+    for i1 in ids:
+        for i2 in ids + ["inf"]:
+            S.case(mkcase(cur, "eq", [i1, i2]), pre + "eq.identity.jacobi2")
+            S.case(mkcase(cur, "add", [i1, i2]), pre + "add.identity.jacobi2")
+            S.case(mkcase(cur, "add", [i2, i1]), pre + "add.identity.jacobi2")
+        S.case(mkcase(cur, "double", [i1]), pre + "double.identity.jacobi")
+        S.case(mkcase(cur, "neg", [i1]), pre + "neg.identity.jacobi")
+        S.case(mkcase(cur, "eq3", [i1, rng.choice(ids), "inf"]), pre + "eq3.identity")
+        for P in rng.sample(pts, min(6, len(pts))):
+            s = tk(J(*K.rescale(P, rng.choice(zs), p)))
+            S.case(mkcase(cur, "eq", [i1, s]), pre + "eq.identity.vs.point")
+            S.case(mkcase(cur, "eq", [s, i1]), pre + "eq.identity.vs.point")
+            S.case(mkcase(cur, "eq", [i1, tk(A(*P))]), pre + "eq.identity.vs.affine")
+            S.case(mkcase(cur, "add", [i1, s]), pre + "add.identity.jacobi")
+            S.case(mkcase(cur, "add", [s, i1]), pre + "add.identity.jacobi")
+            S.case(mkcase(cur, "add", [tk(A(*P)), i1]), pre + "add.identity.jacobi")
+            S.case(mkcase(cur, "eq3", [i1, s, rng.choice(ids)]), pre + "eq3.identity")
     S.case(mkcase(cur, "add", ["inf", "inf"]), pre + "add.identity")
     S.case(mkcase(cur, "eq", ["inf", "inf"]), pre + "eq.inf")
     S.case(mkcase(cur, "double", ["inf"]), pre + "double.inf")
